@@ -17,6 +17,10 @@ func main() {
 	switch os.Args[1] {
 	case "run":
 		cmdRun(os.Args[2:])
+	case "check":
+		os.Exit(cmdCheck(os.Args[2:]))
+	case "replay":
+		os.Exit(cmdReplay(os.Args[2:]))
 	default:
 		fmt.Fprintln(os.Stderr, "unknown command")
 		os.Exit(2)
@@ -44,7 +48,17 @@ func cmdRun(args []string) {
 	if w := os.Getenv("VERIF_WORKERS"); w != "" {
 		fmt.Sscan(w, &e.workers)
 	}
-	hr := e.Explore(fn, ExploreOpts{MaxViolationsPerLabel: 1})
+	e.bounds = map[string]int{}
+	for _, kv := range strings.Split(os.Getenv("VERIF_BOUNDS"), ",") {
+		var k string
+		var v int
+		if i := strings.Index(kv, "="); i > 0 {
+			k = kv[:i]
+			fmt.Sscan(kv[i+1:], &v)
+			e.bounds[k] = v
+		}
+	}
+	hr := e.Explore(fn, ExploreOpts{MaxViolationsPerLabel: 1, SchedChoice: os.Getenv("VERIF_SCHED") != ""})
 	out := map[string]interface{}{
 		"paths": hr.Paths, "steps": hr.Steps, "outcomes": hr.Outcomes, "inconclusive": hr.Inconclusive,
 		"asserts_ok": hr.AssertsOK, "reached": keysOf(hr.Reached), "solver_queries": hr.Solver.Queries,
